@@ -7,6 +7,7 @@ import Ahbicht.Model.AhbEval
 import Ahbicht.Model.Resolve
 import Ahbicht.Model.Extract
 import Ahbicht.Model.Val
+import Ahbicht.Model.Time
 /-!
 # line-protocol driver: one JSON request per line on stdin, one JSON answer per line on stdout
 -/
@@ -237,6 +238,10 @@ def handle (j : Json) : Except String Json := do
     match validateSegment seg parent soll with
     | .ok outs => pure (Json.mkObj [("results", Json.arr (outs.map outJson).toArray)])
     | .error e => pure (Json.mkObj [("err", vErrName e)])
+  | "time93x" =>
+    let f (k : String) : Except String Int := j.getObjValAs? Int k
+    let w : Written := ⟨← f "y", ← f "m", ← f "d", ← f "H", ← f "M", ← f "S", ← f "off"⟩
+    pure (Json.mkObj [("v931", hasNoUtcOffset w), ("strom", isStromtagLimit w), ("gas", isGastagLimit w)])
   | _ => throw s!"unknown op {op}"
 
 partial def loop (h : IO.FS.Stream) (out : IO.FS.Stream) : IO Unit := do
